@@ -11,7 +11,7 @@ HOOKS = {
 ENGINES = [
     {"name": "tlc", "path": "/verif/lib/vlib/tlc.py", "kind_free_text": "TLC 1.8 explicit-state model checker over spec/*.tla",
      "serves_properties": []},
-    {"name": "harness-agent", "path": "/verif/harness/agent", "serves_properties": ["C01", "C02", "C03", "C04", "C05", "C07", "C08", "C09", "C10", "C11", "C12", "C13", "C14", "C15", "C16", "C18", "C19"],
+    {"name": "harness-agent", "path": "/verif/harness/agent", "serves_properties": ["C01", "C02", "C03", "C04", "C05", "C06", "C07", "C08", "C09", "C10", "C11", "C12", "C13", "C14", "C15", "C16", "C18", "C19"],
      "kind_free_text": "cargo crate compiling /repo/proxy_agent/src through symlinks with the verif cfg; drivers: "
                        "function tables, proxy rig (real ProxyServer + mock hosts in a netns), disk, ..."},
     {"name": "harness-ebpf", "path": "/verif/harness/ebpf", "serves_properties": ["C03", "C06", "C07"],
@@ -40,8 +40,8 @@ CHECKS = {
         "design_ref": "DESIGN.md §3 KeyKeeper.tla (C08)",
     },
     "C09": {
-        "text": "KeyKeeper.tla (protocol versions 1.0/2.0, enable/disable, rule documents per endpoint with ids incl. empty and unchanged ids, rotation, per-step host faults, restarts) is model-checked for Converged, FailedPollChangesNothing, NoKeyWhenDisabled (5M states) and liveness; the old rule-id-keyed design must violate Converged (anti-vacuity). Scripted and seeded histories are executed by TLC (expected state per poll) and in lock-step on the real KeyKeeper::poll_secure_channel_status against a scripted host that withholds every status reply (arrival of poll n+1 proves poll n finished), the projection being read through the public getters, the key directory and the H3 policy events; every run is decided by TLC against KeyKeeperTrace.tla.",
-        "note": "Hook H3 only (trace event at the entry of the redirect-policy updates, which otherwise need a loaded BPF object). 'Signs nothing' when disabled is checked as 'holds no key'.",
+        "text": "KeyKeeper.tla (protocol versions 1.0/2.0, enable/disable, rule documents per endpoint with ids incl. empty and unchanged ids, rotation, per-step host faults, restarts) is model-checked for Converged, FailedPollChangesNothing, NoKeyWhenDisabled (5M states) and liveness; the old rule-id-keyed design must violate Converged (anti-vacuity). Scripted and seeded histories are executed by TLC (expected state per poll) and in lock-step on the real KeyKeeper::poll_secure_channel_status against a scripted host that withholds every status reply (arrival of poll n+1 proves poll n finished), the projection being read through the public getters, the key directory and the H3 policy events; every run is decided by TLC against KeyKeeperTrace.tla. The agent's side of the policy runs on the REAL kernel map: the tree's eBPF object is compiled with clang -target bpf, loaded with BpfObject::from_ebpf_file (nothing attached, nothing pinned) and installed in RedirectorSharedState as start_internal does; every instruction history printed by PolicyMapGen.tla (every sequence of 5 update_*_redirect_policy calls; every sequence of secure-channel state changes in the key keeper's call order wireserver, imds, hostga with hostga following wireserver; a sample on a fresh object each, the rest chained) goes through the real async update_*_redirect_policy, policy_map is read back with raw bpf(2) after every call and compared with the set PolicyMap.tla lists (S->I); TLC judges the rows against PolicyMapTrace.tla (keys = exactly the (ip, port, TCP) of the endpoints whose last instruction was 'on', values = the proxy listener).",
+        "note": "Hook H3 (trace event at the entry of the redirect-policy updates) in the lock-step runs; the effect of those calls on the kernel's policy_map is bound separately on a loaded BPF object (nothing attached). 'Signs nothing' when disabled is checked as 'holds no key'.",
         "technique": "TLA+ spec + TLC model checking (safety + liveness); lock-step spec->impl replay with a reply-withholding host; impl->spec trace validation",
         "design_ref": "DESIGN.md §3 KeyKeeper.tla (C09)",
     },
@@ -64,7 +64,7 @@ CHECKS = {
         "design_ref": "DESIGN.md §3 Canon.tla",
     },
     "C07": {
-        "text": "SingleUse is model-checked on Proxy.tla with two connections and two ports (lookup and remove as separate steps, every interleaving, close/reopen); every 5-operation history over two connection slots and two source ports printed by SingleUseGen.tla (attributed/direct connects, keep-alive requests, close, immediate REAL source-port reuse) is replayed on the real ProxyServer, plus a concurrent stress run; TLC validates every observed request against SingleUseTrace.tla: relayed only to its own connection's recorded destination with its own identity in the claims header, unattributed connections (incl. reused ports without a fresh record) refused with 421. The kernel half of the statement (a later connection from a source port that still carries an earlier connection's unconsumed record gets its own record) is checked on the real eBPF C program with the directed port-reuse family of C06, judged by EbpfTrace.tla.",
+        "text": "SingleUse is model-checked on Proxy.tla with two connections and two ports (lookup and remove as separate steps, every interleaving, close/reopen); every 5-operation history over two connection slots and two source ports printed by SingleUseGen.tla (attributed/direct connects, keep-alive requests, close, immediate REAL source-port reuse) is replayed on the real ProxyServer, plus a concurrent stress run; TLC validates every observed request against SingleUseTrace.tla: relayed only to its own connection's recorded destination with its own identity in the claims header, unattributed connections (incl. reused ports without a fresh record) refused with 421. The kernel half of the statement (a later connection from a source port that still carries an earlier connection's unconsumed record gets its own record) is checked on the real eBPF C program with the directed port-reuse family of C06, judged by EbpfTrace.tla. Consumption is also checked on the REAL kernel audit_map (the tree's eBPF object loaded with BpfObject::from_ebpf_file, nothing attached, the stand-in off): rounds of a kernel-style record write, the real lookup_audit and remove_audit, and a raw probe, while three threads keep rewriting the redirect policy; after every round the record must be gone (PolicyMapTrace.tla P_ConsumedAbsent).",
         "note": 'Kernel audit map replaced by the cfg-guarded stand-in (hooks H1/H2) for the agent side; the eBPF program runs in the user-space shim for the kernel side; mock hosts in a private netns capture raw bytes.',
         "technique": "TLA+ spec + TLC model checking; TLC-generated histories replayed with real port reuse; impl->spec trace validation",
         "design_ref": "DESIGN.md §3 Proxy.tla (C07)",
@@ -142,9 +142,11 @@ CHECKS = {
                 "encoders and audit records decoded by the repo's Rust decoders, and seeded random runs (up to 200 "
                 "connections in flight, connections ending unconsumed, port reuse) plus a directed family of "
                 "port-reuse runs (leftover then diverted / unlisted / agent / fallback connect, LRU eviction of a "
-                "leftover) are validated by TLC against the property-level trace spec.",
+                "leftover) are validated by TLC against the property-level trace spec."
+                " The agent's side of the policy runs on the REAL kernel map: the tree's eBPF object is compiled with clang -target bpf, loaded with BpfObject::from_ebpf_file (nothing attached, nothing pinned) and installed in RedirectorSharedState as start_internal does; every instruction history printed by PolicyMapGen.tla (every sequence of 5 update_*_redirect_policy calls; every sequence of secure-channel state changes in the key keeper's call order wireserver, imds, hostga with hostga following wireserver; a sample on a fresh object each, the rest chained) goes through the real async update_*_redirect_policy, policy_map is read back with raw bpf(2) after every call and compared with the set PolicyMap.tla lists (S->I); TLC judges the rows against PolicyMapTrace.tla (keys = exactly the (ip, port, TCP) of the endpoints whose last instruction was 'on', values = the proxy listener).",
         "note": "BPF helper/map semantics are a user-space model after bpf-helpers(7) (strict LRU); verifier/JIT and a "
-                "live kernel attach are not involved (CONFIG_KPROBES is off in the sandbox). x86-64 only.",
+                "live kernel attach are not involved (CONFIG_KPROBES is off in the sandbox). x86-64 only. The real-map part binds the "
+                "user-space half only (map updates and reads on live BPF hash maps); no program is attached.",
         "technique": "TLA+ spec + TLC model checking; spec->impl step replay on the compiled C program; impl->spec trace validation",
         "design_ref": "DESIGN.md §3 Ebpf.tla",
     },
